@@ -373,7 +373,7 @@ def run_shard(spec, emit):
             emit.viol(key + ":direct", what, detail)
     # Part A
     runs = [r for i, r in enumerate(gen_runs(tier, seed)) if i % nshards == shard]
-    deadline = time.monotonic() + (85 if tier == "quick" else 2400)
+    deadline = time.monotonic() + (85 if tier == "quick" else 300)
     samples = 0
     for run in runs:
         if time.monotonic() > deadline:
